@@ -205,6 +205,9 @@ func TestEngineStaking(t *testing.T) {
 	mint(base, addrs[5].Bytes(), new(big.Int).Mul(one, big.NewInt(50)))
 	mint(base, addrs[6].Bytes(), new(big.Int).Mul(one, big.NewInt(50)))
 	mint(base, addrs[7].Bytes(), new(big.Int).Mul(one, big.NewInt(50)))
+	for i := 1; i <= 3; i++ { // externally owned callers hold more than 2^63 base units: signed messages carry amounts beyond int64
+		mint(base, addrs[i].Bytes(), new(big.Int).Mul(one, big.NewInt(30)))
+	}
 	mint(base, addrs[8].Bytes(), new(big.Int).Mul(one, big.NewInt(50)))
 	vals, err := sk.GetAllValidators(base)
 	require.NoError(t, err)
